@@ -11,6 +11,7 @@ import (
 	"sort"
 	"strconv"
 	"strings"
+	"unicode/utf8"
 )
 
 // Kinds of components, in the spelling of the components object.
@@ -232,10 +233,20 @@ func InternDefs() string {
 	return sb.String()
 }
 
+// CoqSafe reports whether s can be written as a Coq string literal (no control bytes, valid UTF-8).
+func CoqSafe(s string) bool {
+	for i := 0; i < len(s); i++ {
+		if s[i] < 0x20 || s[i] == 0x7f {
+			return false
+		}
+	}
+	return utf8.ValidString(s)
+}
+
 func coqLit(s string) string {
 	for i := 0; i < len(s); i++ {
-		if s[i] < 0x20 || s[i] > 0x7e {
-			panic(fmt.Sprintf("CoqStr: non printable byte in %q", s))
+		if s[i] < 0x20 || s[i] == 0x7f {
+			panic(fmt.Sprintf("CoqStr: control byte in %q", s))
 		}
 	}
 	return `"` + strings.ReplaceAll(s, `"`, `""`) + `"%string`
